@@ -16,7 +16,7 @@ def copy_dep(name):
     dst = os.path.join(FX, "deps", name)
     if os.path.exists(dst):
         return
-    shutil.copytree(os.path.join(REPO, "rlib", name), dst, ignore=shutil.ignore_patterns("tests", "target", "README.md"))
+    shutil.copytree(os.path.join(REPO, "rlib", name), dst, ignore=shutil.ignore_patterns("tests", "target"))
     fix_manifest(os.path.join(dst, "Cargo.toml"), None)
 
 
@@ -43,7 +43,7 @@ def main():
             continue
         dst = os.path.join(FX, "crates", name)
         shutil.rmtree(dst, ignore_errors=True)
-        shutil.copytree(os.path.join(REPO, "rlib", sp["from"]), dst, ignore=shutil.ignore_patterns("tests", "target", "README.md"))
+        shutil.copytree(os.path.join(REPO, "rlib", sp["from"]), dst, ignore=shutil.ignore_patterns("tests", "target"))
         fix_manifest(os.path.join(dst, "Cargo.toml"), name)
         for e in sp["edits"]:
             f, old, new = e[0], e[1], e[2]
